@@ -38,6 +38,8 @@ pub struct StreamsManagerBase<const MAX_STREAMS:  usize> {
     used_streams_count:     AtomicU32,
     /// used to coordinate syncing between `vacant_streams` and `used_streams`
     streams_lock:           AtomicBool,
+    /// odd while `used_streams` is being rewritten -- see [Self::used_streams_snapshot()]
+    used_streams_version:   AtomicU32,
     /// counter streams created
     created_streams_count:  AtomicU32,
     /// counter of streams cancelled
@@ -73,6 +75,7 @@ StreamsManagerBase<MAX_STREAMS> {
             wakers_lock:            AtomicBool::new(false),
             keep_streams_running:   UnsafeCell::new(Box::pin([false; MAX_STREAMS])),
             streams_lock:           AtomicBool::new(false),
+            used_streams_version:   AtomicU32::new(0),
             streams_manager_name:   streams_manager_name.into(),
         }
     }
@@ -232,11 +235,32 @@ StreamsManagerBase<MAX_STREAMS> {
         unsafe { &* self.used_streams.get() }
     }
 
+    /// Returns a copy of the ids of the used streams (ended by the sentinel `u32::MAX`, if shorter than `MAX_STREAMS`) along with how many they are
+    /// -- a copy that is guaranteed not to have been taken while the list was being rewritten (due to a stream being created or dropped on
+    /// another thread), so senders neither skip nor repeat the streams that exist throughout
+    #[inline(always)]
+    pub fn used_streams_snapshot(&self) -> ([u32; MAX_STREAMS], u32) {
+        loop {
+            let version = self.used_streams_version.load(std::sync::atomic::Ordering::Acquire);
+            if version & 1 == 0 {
+                #[cfg(feature = "verif")] crate::verif::yield_point("sm.used_streams.read");
+                let used_streams: [u32; MAX_STREAMS] = **unsafe { &* self.used_streams.get() };
+                std::sync::atomic::fence(std::sync::atomic::Ordering::Acquire);
+                if self.used_streams_version.load(Relaxed) == version {
+                    let used_streams_count = used_streams.iter().take_while(|stream_id| **stream_id != u32::MAX).count() as u32;
+                    return (used_streams, used_streams_count)
+                }
+            }
+            std::hint::spin_loop();
+        }
+    }
+
     /// rebuilds the `used_streams` list based of the current `vacant_items`
     #[inline(always)]
     fn sync_vacant_and_used_streams(&self) {
         let used_streams = unsafe { &mut * self.used_streams.get() };
         ogre_sync::lock(&self.streams_lock);
+        self.used_streams_version.fetch_add(1, std::sync::atomic::Ordering::AcqRel);
         let mut vacant = unsafe { self.vacant_streams.peek_remaining().concat() };
         vacant.sort_unstable();
         let mut vacant_iter = vacant.iter();
@@ -264,6 +288,7 @@ StreamsManagerBase<MAX_STREAMS> {
             #[cfg(feature = "verif")] crate::verif::yield_point("sm.sync.write_sentinel");
             unsafe { *used_streams.get_unchecked_mut(i) = u32::MAX };
         }
+        self.used_streams_version.fetch_add(1, std::sync::atomic::Ordering::Release);
         ogre_sync::unlock(&self.streams_lock);
         #[cfg(feature = "verif")] crate::verif::yield_point("sm.sync.done");
     }
